@@ -10,6 +10,12 @@ Tie   : the `parse` harness bin parses every generated text with the real `AstMo
         Checked per case: implementation tree == model tree == reference-grammar tree (== CPython tree on the
         shared subset), accept/reject agreement, Display tokens == model printer tokens, parse(Display(t)) == t
         (f-strings desugared) and Display is a fixed point.
+        Literal payloads: a literal-focused generator (LitGen) starts from intended VALUES holding every character class
+        the printer escapes or the lexer treats specially, spells them in every style, and places them in every
+        syntactic place; checked per case: payloads of the first parse == intended values, payloads after
+        print + re-parse == payloads of the first parse.  The Coq model of fmt_string_literal / the bytes printer and of
+        the lexer's decoding (Parse/Escape.v; C06_string_literal_roundtrip, C06_bytes_literal_roundtrip) is run inside Coq
+        on the literal texts, payloads and Display texts observed on the implementation (literal_model_tie).
 """
 import glob
 import warnings
@@ -32,9 +38,17 @@ TRUSTED = ["extraction: ExtrOcamlBasic only; ocaml/parse_driver.ml (token names 
            "OCaml 4.13.1 ocamlopt",
            "harness/src/bin/parse.rs (own AST walker -> S-expression; token dump of the real lexer)",
            "the lexer (C05's subject) is used as is: model and implementation read the same token stream",
-           "tools/pyref/c06_ast.py over CPython 3.11 `ast` (validates the reference grammar on the shared subset; not part of a proof)"]
+           "tools/pyref/c06_ast.py over CPython 3.11 `ast` (validates the reference grammar on the shared subset; not part of a proof)",
+           "literal generator (tools/props/C06.py LitGen): the intended value of each generated literal is the specification's value; "
+           "CPython's ast.literal_eval cross-checks it at generation time for the spellings Python shares",
+           "coq/Parse/EscapeCases.v rows_of_text (hex text -> rows handed to the Coq literal model; glue of the tie, not part of a theorem)"]
 ASSUMPTIONS = ["statements (def/if/for/return/load, indentation) are not modelled in Coq: they are covered by the CPython comparison "
                "and the print/re-parse round trip only",
+               "in the tree-level theorems (C06_print_parse_roundtrip etc.) a literal is an opaque token; that its payload survives printing "
+               "is the separate character-level theorem C06_string_literal_roundtrip / C06_bytes_literal_roundtrip over the Coq model of "
+               "fmt_string_literal (arms re-extracted from ast.rs on every run) and of lexer.rs string / escape / bytes_string / escape_bytes "
+               "(double-quoted, non-raw: the form the printer writes); the other spellings (single / triple quotes, raw, f-string text, "
+               "brace doubling of the f-string format) are covered by the literal-focused differential cases only",
                "the model/implementation tie is differential testing over exhaustive operator pairs x contexts, exhaustive "
                "argument/parameter orders, grammar-directed random expressions and token-level mutations",
                "documented Starlark/Python differences are excluded from the CPython comparison: chained comparisons, `is`, `**`, "
@@ -673,13 +687,13 @@ def gen_literal_cases(ctx, add, deep=False):
     for tag, v in singles:
         for style in ["short", "hex", "oct", "uni", "mixed", "rawctl", "contin", "rawcr", "raw"]:
             for q in QUOTES:
-                put(lg.str_lit(v, style, q), some_ctx(str_ctx, 2), tag, ("A", "A", "E", "S"))
+                put(lg.str_lit(v, style, q), some_ctx(str_ctx, ctx.n(1, 3)), tag, ("A", "A", "E", "S"))
     # (b) around ordinary text, (c) every ordered pair of classes, (d) random combinations
     for tag, v in padded:
         for style in ["short", "hex", "mixed", "rawcr", "raw"]:
             put(lg.str_lit(v, style), some_ctx(str_ctx, 1), tag, ("A", "A", "E", "S"))
     for tag, v in pairs:
-        for _ in range(3):
+        for _ in range(ctx.n(2, 4)):
             put(lg.str_lit(v), some_ctx(str_ctx, 1), tag, ("A", "A", "E", "S"))
     for tag, v in rnd:
         put(lg.str_lit(v), [rng.choice(str_ctx)], tag, ("A", "A", "E", "S"))
@@ -706,7 +720,7 @@ def gen_literal_cases(ctx, add, deep=False):
         for style in ["short", "hex", "uni", "rawctl", "rawcr", "raw"]:
             for q in QUOTES:
                 texts = rng.choice([[v], [v, ""], ["", v], [v, v], ["a", v, "b"]])
-                put(lg.fstring_lit(texts, style, q), some_ctx(any_ctx, 1), "fstring:" + tag)
+                put(lg.fstring_lit(texts, style, q), some_ctx(any_ctx, 1) if not ctx.quick() else [rng.choice(any_ctx[:1] * 3 + any_ctx)], "fstring:" + tag)
     for tag, v in padded + pairs:
         texts = rng.choice([[v], [v, ""], ["", v], [v, v], ["a", v, "b"]])
         put(lg.fstring_lit(texts), [rng.choice(any_ctx)], "fstring:" + tag)
@@ -751,19 +765,35 @@ def show_payload(p):
     return "%r (%s)" % (p, cps(p)) if not p.startswith("bytes:") else p
 
 
+def cp_class(o, is_bytes):
+    """the character class of a code point / byte: the characters printer or lexer single out are named exactly"""
+    if o in ((0, 9, 10, 13, 0x22, 0x27, 0x5c, 0x7f) if is_bytes else (0, 9, 10, 13, 0x22, 0x27, 0x5c, 0x7b, 0x7d, 0x7f, 0x85, 0x2028, 0x2029)):
+        return ("0x%02x" % o) if is_bytes else ("U+%04X" % o)
+    if o < 0x20:
+        return "c0"
+    if o < 0x7f:
+        return "ascii"
+    if is_bytes:
+        return "high"
+    return "c1" if o < 0xa0 else ("latin1" if o < 0x100 else ("bmp" if o < 0x10000 else "astral"))
+
+
 def payload_diff_class(p1, p2):
-    """narrow classification of the first differing payload pair: kind + the first character / byte of the original
-    value that did not survive"""
+    """narrow classification of the first differing payload pair: kind + the class of the first character / byte of the
+    original value inside the changed region (common prefix and suffix removed; for a pure insertion the one before it)"""
     for a, b in zip(p1, p2):
         if a != b:
-            if a.startswith("bytes:") and b.startswith("bytes:"):
-                x, y = bytes.fromhex(a[6:]), bytes.fromhex(b[6:])
-                i = next((i for i in range(min(len(x), len(y))) if x[i] != y[i]), min(len(x), len(y)))
-                return "bytes/" + ("0x%02x" % x[i] if i < len(x) else "end")
-            if a.startswith("bytes:") != b.startswith("bytes:"):
+            isb = a.startswith("bytes:")
+            if isb != b.startswith("bytes:"):
                 return "kind"
-            i = next((i for i in range(min(len(a), len(b))) if a[i] != b[i]), min(len(a), len(b)))
-            return "str/" + ("U+%04X" % ord(a[i]) if i < len(a) else "end")
+            x, y = (list(bytes.fromhex(a[6:])), list(bytes.fromhex(b[6:]))) if isb else ([ord(c) for c in a], [ord(c) for c in b])
+            i = next((i for i in range(min(len(x), len(y))) if x[i] != y[i]), min(len(x), len(y)))
+            k = 0
+            while k < min(len(x), len(y)) - i and x[len(x) - 1 - k] == y[len(y) - 1 - k]:
+                k += 1
+            region = x[i:len(x) - k]
+            o = region[0] if region else (x[i - 1] if i > 0 else (x[i] if i < len(x) else None))
+            return ("bytes/" if isb else "str/") + (cp_class(o, isb) if o is not None else "end")
     return "count"
 
 
@@ -785,23 +815,25 @@ def hexrow(xs):
     return "".join("%x " % x for x in xs)
 
 
-def literal_model_tie(ctx, deep=False):
+def literal_model_tie(ctx, deep=False, only=None):
     """The Coq model of the printer's escaping and of the lexer's decoding (coq/Parse/Escape.v, the subject of
     C06_string_literal_roundtrip / C06_bytes_literal_roundtrip) against the implementation: for `x = <literal>` the model's
     lexer must read the literal text as the payload the real parser holds (or reject it when the real parser does), the
     model's printer must write the text Display writes, and the model must read that text back."""
     rng = ctx.rng
     lg = LitGen(rng)
-    singles, pairs, padded, rnd = lg.values(ctx.n(150, 3000) * (3 if deep else 1))
-    lits = []   # (kind, literal source text)
+    singles, pairs, padded, rnd = ([], [], [], []) if only is not None else lg.values(ctx.n(150, 3000) * (3 if deep else 1))
+    lits = list(only or [])   # (kind, literal source text)
     for tag, v in singles:
-        for style in ["short", "hex", "oct", "mixed", "rawcr", "rawctl", "contin"]:
+        for style in (["short", "hex", "oct", "mixed", "rawcr", "rawctl", "contin"] if not ctx.quick() or deep
+                      else ["short", "hex", rng.choice(["oct", "mixed"]), rng.choice(["rawcr", "rawctl", "contin"])]):
             lits.append(("str", lg.str_lit(v, style, '"')[0]))
     for tag, v in rng.sample(padded, min(len(padded), ctx.n(100, 2000))) + rng.sample(pairs, min(len(pairs), ctx.n(150, 3000))) + rnd:
         lits.append(("str", lg.str_lit(v, rng.choice(["short", "hex", "oct", "uni", "mixed", "rawcr", "rawctl", "contin"]), '"')[0]))
-    lits += [("str", t) for t in LEX_EDGE_TEXTS]
-    for b in range(256):
-        for style in ["short", "hex", "oct"]:
+    if only is None:
+        lits += [("str", t) for t in LEX_EDGE_TEXTS]
+    for b in range(256 if only is None else 0):
+        for style in (["short", "hex", "oct"] if not ctx.quick() or deep else ["short", rng.choice(["hex", "oct"])]):
             lits.append(("bytes", lg.bytes_lit(bytes([b]), style, '"')[0]))
         lits.append(("bytes", lg.bytes_lit(bytes([b, 0x30 + b % 10, b]), "mixed", '"')[0]))
     for tag, v in singles:
@@ -809,10 +841,11 @@ def literal_model_tie(ctx, deep=False):
             lit = lg.bytes_lit(v.encode("utf-8"), style, '"')
             if lit:
                 lits.append(("bytes", lit[0]))
-    for _ in range(ctx.n(150, 3000)):
+    for _ in range(ctx.n(150, 3000) if only is None else 0):
         v = bytes(rng.choice(rng.choice(BYTE_CLASSES)) for _ in range(rng.randint(1, 8)))
         lits.append(("bytes", lg.bytes_lit(v, rng.choice(["short", "hex", "oct", "mixed"]), '"')[0]))
-    lits += [("bytes", t) for t in LEX_EDGE_BYTES]
+    if only is None:
+        lits += [("bytes", t) for t in LEX_EDGE_BYTES]
     cases = [{"src": "x = %s\n" % t, "d": "A", "tokens": False, "rt": False, "kind": "literal-model"} for _, t in lits]
     rc, log, res = sv.run_harness_sharded(ctx, "parse", cases, timeout=600)
     failures, broken, rows, rowmeta = [], [], [], []
@@ -846,9 +879,9 @@ def literal_model_tie(ctx, deep=False):
         rowmeta.append((c, r, "printer model writes a different text than Display %r for payload %s, or the lexer model does not read it back"
                         % (disp, show_payload(pl[0]))))
     files = []
-    nshard = min(8, max(1, len(rows) // 300))
+    nshard = min(ctx.n(3, 12), max(1, len(rows) // 400))
     for sh in range(nshard):
-        part = rows[sh::nshard]
+        part = rows[sh::nshard] + ["l 22 22 , 1 ;"]     # positive control: a wrong row that must be reported
         text = ("From Coq Require Import NArith List String.\nFrom SV Require Import Parse.Escape Parse.EscapeCases.\n"
                 "Import ListNotations.\nOpen Scope N_scope.\n")
         chunk, base, size = [], 0, 0     # a string literal of more than a few thousand characters overflows coqc's stack
@@ -867,13 +900,18 @@ def literal_model_tie(ctx, deep=False):
         if vals is None:
             broken.append(("literal-model-tie", "coqc failed on the literal rows: " + out[-300:]))
             continue
-        for idx in [x for v in vals for x in v]:
+        bad = [int(x) for v in vals for x in v]
+        control = len(rows[sh::nshard])
+        if control not in bad:
+            broken.append(("literal-model-tie", "the deliberately wrong control row %d of shard %d was not reported: %s" % (control, sh, out[-300:])))
+            continue
+        for idx in [x for x in bad if x != control]:
             mism += 1
             c, r, why = rowmeta[sh + int(idx) * nshard]
             failures.append({"key": "literal:model-differs", "what": "%r: %s; Coq row: %s" % (c["src"], why, rows[sh + int(idx) * nshard][:300]),
                              "replay": {"case": c, "impl": r, "row": rows[sh + int(idx) * nshard]}})
-    ctx.log("literal model tie: %d rows (%d lexer rows, %d rejected by both sides expected, %d printer rows), %d mismatches"
-            % (len(rows), n_lex, n_rej, n_print, mism))
+    ctx.log("literal model tie: %d rows (%d lexer rows, %d rejected by both sides expected, %d printer rows), %d mismatches, %d of %d Coq runs failed"
+            % (len(rows), n_lex, n_rej, n_print, mism, len(broken), nshard))
     return failures, broken, {"literal_model_rows": len(rows), "literal_model_lexer_rows": n_lex + n_rej, "literal_model_rejections": n_rej,
                               "literal_model_printer_rows": n_print, "literal_model_mismatches": mism}
 
@@ -894,6 +932,12 @@ def gen_cases(ctx, deep=False):
             line = line.rstrip("\n")
             if line and not line.startswith("#"):
                 add(line.replace("\\n", "\n"), "corpus")
+    for p in sorted(glob.glob(os.path.join(sv.ROOT, "corpus", "C06", "*.jsonl"))):
+        for line in open(p, encoding="utf-8"):
+            row = json.loads(line) if line.strip() else {}
+            if "src" in row:
+                add(row["src"], "literals", shared=False, model=False, tokens=False, expect=row["expect"],
+                    lit={"class": "corpus", "spelling": "corpus", "context": os.path.basename(p)})
     gen_literal_cases(ctx, add, deep)
     forms = pair_forms()
     for f in forms:
@@ -1150,8 +1194,11 @@ def correspond(ctx):
     cases = gen_cases(ctx)
     ctx.log("generated %d cases" % len(cases))
     failures, st = evaluate(ctx, cases)
-    ctx.log("evaluated=%d accepted=%d rejected=%d model=%d cpython=%d (both accept: %d) roundtrips=%d failures=%d"
-            % (st["evaluations"], st["accepted"], st["rejected"], st["model_cases"], st["py_cases"], st["py_both_ok"], st["roundtrips"], len(failures)))
+    ctx.log("evaluated=%d accepted=%d rejected=%d model=%d cpython=%d (both accept: %d) roundtrips=%d literal cases=%d (payloads compared: %d) failures=%d"
+            % (st["evaluations"], st["accepted"], st["rejected"], st["model_cases"], st["py_cases"], st["py_both_ok"], st["roundtrips"],
+               st["literal_cases"], st["literal_payloads"], len(failures)))
+    lit_failures, lit_broken, lit_cov = literal_model_tie(ctx)
+    failures += lit_failures
     samples = []
     seen = set()
     for c in cases:
@@ -1165,19 +1212,34 @@ def correspond(ctx):
                 "(exhaustive), every ordered triple of binary operators (exhaustive; all contexts in the thorough tier), every order of "
                 "argument kinds / lambda and def parameter kinds up to length 4 (5 thorough) (exhaustive), grammar-directed random "
                 "expressions, token-level mutations of valid inputs, random statement programs over all statement forms and indentation "
-                "shapes, every .star/.bzl file under the repository; non-trivial = the real lexer's token stream holds at least two "
-                "operator tokens; distinct by source text" % len(CONTEXTS),
+                "shapes, every .star/.bzl file under the repository; literal-focused cases: string / bytes / f-string literals whose "
+                "VALUES hold every character class the printer escapes or the lexer treats specially (LF CR TAB NUL backslash both quotes, "
+                "every other C0 control, DEL, braces, NEL and the C1 controls, Latin-1, BMP incl. the surrogate borders / BOM / U+FFFF, "
+                "astral incl. U+10FFFF, combining marks / ZWJ, U+2028 / U+2029, CR LF / LF CR / CR CR pairs, digits and escape letters "
+                "that could fuse with a preceding escape) - each member alone in every spelling x quote style (short / hex / octal / "
+                "\\u escapes, mixed, raw control characters, line continuations, raw CR and CR LF in the source, raw strings; single, double, "
+                "triple quotes), around ordinary text, every ordered pair of classes, random combinations; all 256 byte values in bytes "
+                "literals; the classes in f-string text parts; in %d syntactic places (assignment, call and keyword arguments, dict keys "
+                "and values, subscripts, default arguments, docstrings, load() module and symbol names, comprehensions, nested suites, "
+                "...); per literal case the payloads of the first parse are compared with the value the generator intended (CPython reads "
+                "the shared spellings the same way), and the payloads after print + re-parse with those of the first parse; "
+                "non-trivial = the real lexer's token stream holds at least two "
+                "operator tokens; distinct by source text" % (len(CONTEXTS), len(LIT_CONTEXTS)),
         "traces_validated_against_impl": st["model_cases"],
         "cpython_compared": st["py_cases"],
         "cpython_both_accept_trees_compared": st["py_both_ok"],
         "cpython_informational": st["py_informational"],
         "print_roundtrips_checked": st["roundtrips"],
+        "literal_cases": st["literal_cases"], "literal_payloads_compared_with_intended_value": st["literal_payloads"],
+        "literal_character_classes": sorted(st["literal_classes"]), "literal_spellings": st["literal_spellings"],
+        "literal_contexts": st["literal_contexts"],
         "accepted": st["accepted"], "rejected": st["rejected"],
         "input_distribution": st["kinds"],
         "exhaustive": False,
         "samples": samples,
     }
-    return {"coverage": cov, "failures": failures}
+    cov.update(lit_cov)
+    return {"coverage": cov, "failures": failures, "broken": lit_broken}
 
 
 def search(ctx, broken):
@@ -1187,15 +1249,23 @@ def search(ctx, broken):
     try:
         cases = [c for c in gen_cases(ctx, deep=True) if c["kind"] != "file"]
         failures, st = evaluate(ctx, cases)
+        if not any(b[0] in ("proof-build", "translator", "literal-model-tie") for b in broken):
+            failures += literal_model_tie(ctx, deep=True)[0]     # needs Parse/EscapeCases.vo
     finally:
         ctx.tier = old
-    return {"failures": failures, "coverage": {"evaluations": st["evaluations"], "model_cases": st["model_cases"]}}
+    return {"failures": failures, "coverage": {"evaluations": st["evaluations"], "model_cases": st["model_cases"],
+                                               "literal_cases": st["literal_cases"]}}
 
 
 def replay(ctx, rep):
     c = rep.get("replay", {}).get("case")
     if not c:
         return {"coverage": {}, "failures": []}
+    if c.get("kind") == "literal-model":
+        text = c["src"][4:-1]
+        failures, broken, cov = literal_model_tie(ctx, only=[("bytes" if text.startswith("b") else "str", text)])
+        cov.update({"evaluations": 1, "samples": [c]})
+        return {"coverage": cov, "failures": failures, "broken": broken}
     failures, st = evaluate(ctx, [c])
     return {"coverage": {"evaluations": st["evaluations"], "distinct_nontrivial": len(st["nontrivial"]), "samples": [c]}, "failures": failures}
 
@@ -1224,10 +1294,28 @@ META = {
                   "print differently), C06_print_parse_roundtrip_in_context (inside any bracket/comma/colon/else/for context), "
                   "C06_print_parse_roundtrip_stmt (also `target = value`), C06_print_parse_roundtrip_extracted (at the extracted tables with "
                   "the fuel the tie uses: size <= number of printed tokens). "
+                  "(3) Literal payloads. In (1) and (2) a string literal is an opaque token (TString n), so those theorems are about token "
+                  "structure; that the VALUE of a literal survives printing is proved separately at the level of characters "
+                  "(Parse/Escape.v, Parse/EscapeProofs.v): C06_string_literal_roundtrip - for every escape table t with esc_table_ok t "
+                  "(closing quote, backslash, LF, CR have an arm; every arm's text is backslash + a letter that `escape` decodes to exactly "
+                  "that char without look-ahead, or \\xHH with that value) and EVERY list of code points s, the model of lexer.rs "
+                  "string(triple=false, raw=false) / escape / escape_char reads print_string t s ++ rest back as (s, rest); "
+                  "C06_string_escapes_extracted_ok - the arms of ast.rs fmt_string_literal, re-extracted on every run by a regular expression "
+                  "that pins the whole function body (quote, one match over s.chars() whose last arm writes the char itself, quote), satisfy "
+                  "esc_table_ok; corollaries C06_string_literal_fixpoint, C06_string_literal_print_injective, "
+                  "C06_string_literal_roundtrip_extracted; C06_bytes_literal_roundtrip - the same for Display of AstLiteral::Bytes and "
+                  "bytes_string / escape_bytes, for every list of bytes; C06_escape_cr_arm_needed - without the CR arm esc_table_ok fails and "
+                  "the value a CR b is read back as a b. This covers string literals, load() module and symbol names and the desugared "
+                  "f-string format (all printed by fmt_string_literal). "
                   "Still only TIED (tested, not proved): that the Coq model is parser_rd.rs and that Print.v is ast.rs Display - the "
                   "extracted model and reference grammar are run on the real lexer's token stream of every generated text and compared with "
                   "the real parser's tree / rejection, the model printer with Display's tokens, and the real parser is checked for "
                   "parse(Display(t)) = t and Display fixed point; CPython's ast gives an independent third opinion on the shared subset. "
+                  "The literal models are tied too: the extracted-table printer model must write exactly the text Display writes and the "
+                  "lexer model must read every generated double-quoted literal text (all escape kinds, edge and invalid escapes) as the "
+                  "payload the real parser holds, evaluated inside Coq on rows observed on the implementation; and the literal-focused "
+                  "differential cases compare, on the real parser and printer, the payloads of the first parse with the intended values and "
+                  "the payloads after print + re-parse with those of the first parse, for every character class x spelling x syntactic place. "
                   "NOT proved and not modelled in Coq: statements other than the one-line expression / assignment statement "
                   "(def/if/for/return/load, indentation; covered by the CPython comparison and the real round trip only), f-string desugaring, minimal-parenthesis printing (min_paren_roundtrip of "
                   "DESIGN), and that every tree the parser returns is `printable` (checked per case by the tie). One deviation from the "
@@ -1238,7 +1326,9 @@ META = {
                   "subject); CPython 3.11 ast as validation of the reference grammar. The model makes explicit that parse_unary consumes "
                   "a token when it succeeds (guard) and uses explicit fuel for nesting; neither fires on generated inputs (OOF/guard "
                   "results are reported as failures). The tie is differential testing: a code change outside the generators' reach can escape.",
-    "technique": "Coq proof of parser model = stratified grammar on all token lists (operator layer by level induction, lifted by relational "
+    "technique": "Coq proof that the lexer model inverts the printer's escaping for every string / bytes value over a source-extracted escape "
+                 "table; value-directed literal generator (character classes x spellings x places) with intended-value oracle; "
+                 "Coq proof of parser model = stratified grammar on all token lists (operator layer by level induction, lifted by relational "
                  "parametricity of the shared grammar code + argument re-entry lemma) over a table_ok-checked, source-extracted "
                  "binding-power table; Coq proof of the Display round trip by size induction; "
                  "extracted model vs implementation vs CPython on exhaustive operator pairs/triples x contexts",
